@@ -136,6 +136,11 @@ class Engine(GenericConcreteEngine[Callable[..., Any]]):
                         # insertion there was a no-op), a successful
                         # commutation may have replaced or dropped the
                         # existing operation.
+                        if not done and commutator.second is not tree.operation:
+                            # ... which is only valid on top of all of
+                            # commutator.first, and the insertion upstream was
+                            # just a partial one.
+                            upstream = commutator.first._finish_apply(upstream)
                         result = commutator.second._finish_apply(upstream)
                     else:
                         result = tree
